@@ -76,3 +76,18 @@ def lex_le(a, b):
     if not a:
         return True
     return Or(a[0] < b[0], And(Eq(a[0], b[0]), lex_le(a[1:], b[1:])))
+
+
+def next_day(y, m, d):
+    """the calendar day after (y, m, d)"""
+    last = Eq(d, dim(y, m))
+    dec = Eq(m, 12)
+    return (If(And(last, dec), y + 1, y), If(last, If(dec, 1, m + 1), m), If(last, 1, d + 1))
+
+
+def prev_day(y, m, d):
+    first = Eq(d, 1)
+    jan = Eq(m, 1)
+    pm = If(jan, 12, m - 1)
+    py = If(jan, y - 1, y)
+    return (If(first, py, y), If(first, pm, m), If(first, dim(py, pm), d - 1))
